@@ -2000,6 +2000,27 @@ fn verify_nsec(
             .map(|(name, _)| (*name).clone())
     };
 
+    // For wildcard expansion responses, we need to prove there are no closer matches and no exact match.
+    // (RFC 4035 5.3.4 and B.6/C.6) Whether `wildcard_name` is covered does not matter here: when the
+    // query name is directly below the closest encloser it is the very wildcard the answer was
+    // expanded from, and it exists.
+    if response_code == ResponseCode::NoError
+        && have_answer
+        && !query_name_is_ent
+        && !closer_encloser_exists(
+            &query.name,
+            covering_nsec_name,
+            covering_nsec_data.next_domain_name(),
+            wildcard_base_name.as_ref(),
+        )
+        && no_closer_matches(&query.name, soa_name, nsecs, wildcard_base_name.as_ref())
+    {
+        return nsec1_yield(
+            Proof::Secure,
+            "no direct match, no closer match for wildcard expansion response",
+        );
+    }
+
     match find_nsec_covering_record(soa_name, &wildcard_name, nsecs) {
         // For NXDomain responses, we've already proved the record does not exist. Now we just need to prove
         // the wildcard name is covered.
@@ -2015,26 +2036,6 @@ fn verify_nsec(
                 ) =>
         {
             nsec1_yield(Proof::Secure, "no direct match, no wildcard")
-        }
-        // For wildcard expansion responses, we need to prove there are no closer matches and no exact match.
-        // (RFC 4035 5.3.4 and B.6/C.6)
-        Some((_, _))
-            if response_code == ResponseCode::NoError
-                && have_answer
-                && !query_name_is_ent
-                && !closer_encloser_exists(
-                    &query.name,
-                    covering_nsec_name,
-                    covering_nsec_data.next_domain_name(),
-                    wildcard_base_name.as_ref(),
-                )
-                && no_closer_matches(&query.name, soa_name, nsecs, wildcard_base_name.as_ref())
-                && find_nsec_covering_record(soa_name, &query.name, nsecs).is_some() =>
-        {
-            nsec1_yield(
-                Proof::Secure,
-                "no direct match, covering wildcard present for wildcard expansion response",
-            )
         }
         // For wildcard no data responses, we need to prove a wildcard matching wildcard_name does not contain
         // the requested record type and that no closer match exists. (RFC 4035 3.1.3.4 and B.7/C.7)
